@@ -282,13 +282,11 @@ func (s *S) json(depth int) sv[builder.JsonBuildObjectBuilder] {
 		j = fn.JsonbBuildObject()
 		p = "fn.JsonbBuildObject()"
 	}
-	if s.Wide {
-		// many distinct keys: size thresholds of the renderer (and PostgreSQL's 100-argument limit at 50 pairs)
+	if s.Wide && s.chance(0.25) {
+		// many distinct keys: size thresholds of the renderer (and PostgreSQL's 100-argument limit at 50 pairs);
+		// leaf values, so that the object stays small
 		sizes := []int{7, 33, 50, 51, 75, 100, 101}
-		d := depth
-		if d > 1 {
-			d = 1
-		}
+		d := 0
 		for i, k := 0, sizes[s.n(len(sizes))]; i < k; i++ {
 			key := fmt.Sprintf("k%d", i)
 			e := s.exp(d)
